@@ -221,7 +221,7 @@ func oracleC01asa(c *Case) Verdict {
 }
 
 func init() {
-	register("C01", "asa", oracleC01asa)
+	register("C01", "asa", withRefusal(oracleC01asa, oracleC08asa))
 }
 
 func asaRefMerge(v4, v6, raw string) (*asam.State, error) {
